@@ -1,3 +1,4 @@
+import ReuseVerif.Lemmas.Lines
 import ReuseVerif.Py.Str
 namespace Py
 
